@@ -151,7 +151,7 @@ def crops(draw, P):
         # one or two of the less frequently changed documented crop parameters, moved by up to +-25 % (or inside their
         # documented range), so that code reading them is exercised with other than the catalogue values
         MISC = {"fshape_b": ("mul",), "PctZmin": ("rng", 50.0, 100.0), "GermThr": ("rng", 0.05, 0.5), "CCmin": ("rng", 0.02, 0.1),
-                "HIini": ("rng", 0.005, 0.03), "fsink": ("rng", 0.0, 1.0), "SeedSize": ("mul",), "PlantPop": ("mulint",), "Kcb": ("mul",),
+                "HIini": ("set", 0.005, 0.01, 0.02, 0.03), "fsink": ("rng", 0.0, 1.0), "SeedSize": ("mul",), "PlantPop": ("mulint",), "Kcb": ("mul",),
                 "fage": ("mul",), "WP": ("mul",), "a_HI": ("mul",), "b_HI": ("mul",), "dHI_pre": ("rng", 0.0, 10.0), "exc": ("mul",),
                 "GDD_up": ("mul",), "SxBotQ": ("mul",), "LagAer": ("int", 1, 6), "beta": ("rng", 5.0, 20.0), "a_Tr": ("rng", 0.5, 2.0),
                 "MaxFlowPct": ("rng", 20.0, 50.0)}
@@ -165,6 +165,8 @@ def crops(draw, P):
                 ov[k] = int(round(v)) if spec[0] == "mulint" else round(v, 6)
             elif spec[0] == "int":
                 ov[k] = draw(st.integers(spec[1], spec[2]))
+            elif spec[0] == "set":
+                ov[k] = draw(st.sampled_from(list(spec[1:])))
             else:
                 ov[k] = draw(f2(spec[1], spec[2])) if spec[2] <= 1.5 else float(draw(st.integers(int(spec[1]), int(spec[2]))))
     if P["switches"]:
@@ -290,8 +292,15 @@ def soils(draw, P, zmax):
                 thick = r2(sum(base_dz[bounds[li]:]))         # ends exactly at the bottom of the (un-deepened) profile
             lay["thickness"] = thick
             layers.append(lay)
-        if "calc_cn" in args and args["calc_cn"] == 1:
-            pass
+        if nl > 1 and flag(draw, P.get("ksat_contrast", 0.3)):
+            # sharp conductivity contrast between the surface layer and the layers below (either direction):
+            # a slowly permeable crust over free-draining subsoil, or a perched water table
+            lo = float(draw(st.sampled_from([1, 2, 5, 10])))
+            hi = float(draw(st.sampled_from([500, 1200, 2200, 3000])))
+            top_low = draw(st.booleans())
+            for li, lay in enumerate(layers):
+                if lay["kind"] == "hyd":
+                    lay["ksat"] = (lo if top_low else hi) if li == 0 else (hi if top_low else lo)
         s = dict(type="custom", args=args, layers=layers)
     else:
         s = dict(type=draw(st.sampled_from(BUILTIN_SOILS)), args=args)
@@ -425,8 +434,9 @@ def field_mngts(draw, P, cn):
     f = {}
     if flag(draw, P["p_mulch"]):
         f["mulches"] = True
-        f["mulch_pct"] = float(draw(st.sampled_from([0, 20, 50, 80, 100])))
-        f["f_mulch"] = draw(st.sampled_from([0.0, 0.3, 0.5, 0.8, 1.0]))
+        if not flag(draw, 0.3):     # else: the constructor defaults (50 %, 0.5) by omission
+            f["mulch_pct"] = float(draw(st.sampled_from([0, 20, 50, 80, 100])))
+            f["f_mulch"] = draw(st.sampled_from([0.0, 0.3, 0.5, 0.8, 1.0]))
     if flag(draw, P["p_bunds"]):
         f["bunds"] = True
         f["z_bund"] = draw(st.sampled_from([0.0, 0.01, 0.03, 0.05, 0.1, 0.2, 0.4]))
